@@ -7,6 +7,13 @@ WHAT = "encoding/decoding is not a deterministic function of its input (Level A:
 EXTRA = ('h_enc1','h_enc2','h_dec1','h_dec2','h_dec_trail')
 
 
+def tagger(r):
+    # input class of finding F20 / F20c: the exact stream is refused, the same stream followed by other bytes decodes
+    if r.get("e") == "RT" and r.get("gt") == "mesh" and r.get("m") == "seq" and r.get("cc") and r.get("short3") and r.get("eok") and not r.get("dok"):
+        return {"input": "compress_connectivity", "stream": "fewer_than_3_bytes_per_face", "method": "sequential"}
+    return None
+
+
 def check(v, tier, seed):
     exe = vlib.build_drv("drv_rt")
     wd = vlib.workdir("C06")
@@ -20,7 +27,7 @@ def check(v, tier, seed):
             v.violation({"what": "codec crashed during the %s campaign" % name, "rc": err[0], "output": err[1][-1500:]}, tags={"kind": "crash"})
             continue
         stats.append(st)
-        recs, n = rtcommon.validate(v, "C06", f, WHAT, extra=EXTRA)
+        recs, n = rtcommon.validate(v, "C06", f, WHAT, extra=EXTRA, tagger=tagger)
         recs_by[name] = recs
         total += n
     rtcommon.cover(v, recs_by, stats, total)
